@@ -130,7 +130,7 @@ EXTRA = {
  "C08": " Added: `long` (scan lines beyond 256 cells) and float32-boundary thresholds in sequential mode; `objects` (recurrence networks, joint plots and joint networks, fresh and after each mutator, vs run-length counts of their own matrix); `rqa_summary` with l_min != v_min; `embedded_mv` (NaN samples under delay embedding).",
  "C09": " Added: `scale` (129-209 nodes, non-local bands, coincident nodes); the directed Hilbert network vs a fresh object after every setter." + FORMS,
  "C10": " Added: `scale` (>= 17 bins) and `gridded` ([time, lat, lon] / [time, level, lat, lon] input vs its row-major reshape, both classes); full-sample time surrogates vs the full-window statistic; shift invariance of the climate similarity measures; estimates before and after a surrogate draw." + FORMS,
- "C11": " Added: `scale` (counters >= 128, unsorted groups on 16-30 node graphs, N >= 182) and links of length exactly 0.",
+ "C11": " Added: `scale` (counters >= 128, unsorted groups on 16-30 node graphs, N >= 182) and links of length exactly 0; compiled == _sparse for the cross clustering twins on directed networks too.",
  "C12": " Added: `scale` (hundreds of nodes, small separations on large grids); the inherited Euclidean and the angular matrix on one GeoGrid in both orders." + FORMS,
  "C13": " Added: `scale` (|t|/dt > 1e5, T up to 300), time stamps that are not single-precision numbers with bounds on samples, integer observables." + FORMS,
  "C14": " Added: `mid`/`scale` (17-300 samples, divide-and-conquer patterns) and uneven timings far from the origin." + FORMS,
@@ -139,7 +139,7 @@ EXTRA = {
  "C17": " Added: `scale` families, density-to-count round trips for products up to 400, node lists in non-ascending order; degree-preserving rewiring of directed networks (in- and out-degrees).",
  "C18": " Added: `scale` (25-40 nodes, resistances over >= 10 decades, several components) and `routes` (adjacency= with values on non-links, update with a full matrix / the same array edited in place, real <-> complex updates); the scaling law with factors 2^-30 ... 2^30." + FORMS,
  "C19": " Added: components of 52-213 nodes (part arithmetic), more than 100 nodes per slave; preemption bounds 2/1 (quick) and 3/2 (thorough); distributed runs on objects of seven Network subclasses.",
- "C20": " Added: entries with 10-40 nodes / hundreds of samples (thorough) and the twin kernels of Surrogates (3-D embedding); tools/kernel_reach.py confirms that every function of the four extension modules is reached; cross-recurrence entries with unequal lengths in more than one dimension; call histories within one process; chunk kernels on row blocks.",
+ "C20": " Added: entries with 10-40 nodes / hundreds of samples (thorough) and the twin kernels of Surrogates (3-D embedding); tools/kernel_reach.py confirms that every function of the four extension modules is reached; cross-recurrence entries with unequal lengths in more than one dimension; call histories within one process; chunk kernels on row blocks; networks of 12-150 nodes with fewer links than nodes.",
 }
 
 
